@@ -128,6 +128,26 @@ type Cfg struct {
 	AtAttempts int    `json:"at_once_max_attempts,omitempty"`
 	// PlainBuild: the program is built as shipped, without the race detector
 	PlainBuild bool `json:"program_built_without_race_detector,omitempty"`
+	// The configuration matrix and the operator's other keys (keys.go).
+	// CtrlI: what -ctrl-i names: "" (flag not given), file, dir, missing; CtrlIName: the spelling of the name
+	// (plain, with a space, with a %); CtrlIExt: the single file's extension (.subr and .sh are converted, .txt is sent as it is);
+	// CtrlISize: small (a few functions), medium (dozens), large (more than 1100 lines: more than the program's input queue of 1024 holds)
+	CtrlI     string `json:"ctrl_i,omitempty"`
+	CtrlIName string `json:"ctrl_i_name,omitempty"`
+	CtrlIExt  string `json:"ctrl_i_extension,omitempty"`
+	CtrlISize string `json:"ctrl_i_size,omitempty"`
+	// CBAddrs: how many -callback-address flags; Tmpl: -callback-template is "" (not given), file, symlink, missing
+	CBAddrs int    `json:"callback_addresses,omitempty"`
+	Tmpl    string `json:"callback_template,omitempty"`
+	IPv6    bool   `json:"ipv6_one_liners,omitempty"`
+	// Prompt: -prompt value ("-" = flag not given)
+	Prompt string `json:"prompt,omitempty"`
+	// Spelling of the added flags: 0 "-flag value", 1 "-flag=value", 2 "--flag value", 3 "--flag=value"
+	Spelling int `json:"flag_spelling,omitempty"`
+	// KeysDuring / KeysAfter: keys the operator presses while the one shell is attached (after the listener was seen
+	// closed) / after it has gone and before the one entered line: tab (= Ctrl+I, the same byte), ctrl-j, ctrl-o
+	KeysDuring []string `json:"operator_keys_while_shell_attached,omitempty"`
+	KeysAfter  []string `json:"operator_keys_after_shell_gone,omitempty"`
 }
 
 func (c Cfg) sig() string {
@@ -145,6 +165,10 @@ func newSig(c Cfg) string {
 	}
 	if c.AtFrame != "" {
 		s += "|atonce=" + c.AtFrame + "/" + c.AtTiming + "/" + c.AtEnd
+	}
+	if c.Engine == "keys" || c.Engine == "icanhazip" {
+		s += fmt.Sprintf("|ctrl-i=%s/%s/%s/%s|cb=%d|tmpl=%s|v6=%v|prompt=%q|sp=%d|keys=%s/%s", c.CtrlI, c.CtrlIName, c.CtrlIExt, c.CtrlISize, c.CBAddrs, c.Tmpl, c.IPv6, c.Prompt, c.Spelling,
+			strings.Join(c.KeysDuring, "+"), strings.Join(c.KeysAfter, "+"))
 	}
 	return s
 }
@@ -622,6 +646,8 @@ type env struct {
 	heldBodied     int       // requests with an unasked-for, unfinished body whose client is still connected
 	heldInProgress int       // requests the program is still in the middle of (its handler waits for the client), client still connected
 
+	ins          *insertSrc    // what -ctrl-i names (keys.go); nil: flag not given
+	keysPressed  int           // keys pressed after the shell had gone
 	lrng         *rand.Rand    // the late speakers' own stream
 	lateD, lateA [][]*lateConn // pre-opened connections that speak during / after the shell, per entry of cfg.LateDuring / LateAfter
 }
@@ -713,6 +739,15 @@ func runCfg(r *mon.Run, bin string, cfg Cfg, rng, lrng *rand.Rand, alone bool) *
 	if cfg.Log != "" {
 		res.count("runs_with_log:"+cfg.Log, 1)
 	}
+	var ins *insertSrc
+	if cfg.Engine == "keys" {
+		more, src, err := matrixArgs(cfg, home, r.Rng("keys-content", i))
+		if err != nil {
+			res.inconclusive("preparing the configuration: %v", err)
+			return res
+		}
+		args, ins = append(args, more...), src
+	}
 	if cfg.OneCPU {
 		extraEnv = append(extraEnv, "GOMAXPROCS=1")
 		res.count("runs_with_gomaxprocs_1", 1)
@@ -724,7 +759,7 @@ func runCfg(r *mon.Run, bin string, cfg Cfg, rng, lrng *rand.Rand, alone bool) *
 	}
 	tl.t0 = s.P.Started
 	tl.add("HARNESS 'Listening on %s' seen; args %v", s.Addr, args)
-	e := &env{src: s.P, r: r, res: res, cfg: cfg, rng: rng, s: s, tl: tl, mult: mult, addr: s.Addr, fdir: fdir, lrng: lrng}
+	e := &env{src: s.P, r: r, res: res, cfg: cfg, rng: rng, s: s, tl: tl, mult: mult, addr: s.Addr, fdir: fdir, lrng: lrng, ins: ins}
 	cleanup := func() {
 		if e.p != nil {
 			e.p.halt()
@@ -1187,7 +1222,10 @@ type traffic struct {
 	closeSeen atomic.Bool
 	abort     atomic.Bool
 
+	inserts []insertRec // Tab presses while the shell was attached (keys.go)
+
 	rmu       sync.Mutex
+	nIns      int // received lines that are not typed lines
 	got       []string
 	rerr      error
 	rdone     chan struct{}
@@ -1259,6 +1297,9 @@ func (t *traffic) reader(in *crs.InStream) {
 			}
 			t.rmu.Lock()
 			t.got = append(t.got, l)
+			if !strings.HasPrefix(l, "in-") && !strings.HasPrefix(l, "echo RT-") {
+				t.nIns++ // not a typed line: part of an insert (keys.go)
+			}
 			t.rmu.Unlock()
 		}
 	}()
@@ -1267,8 +1308,11 @@ func (t *traffic) reader(in *crs.InStream) {
 func (t *traffic) received() (int, error) {
 	t.rmu.Lock()
 	defer t.rmu.Unlock()
-	return len(t.got), t.rerr
+	return len(t.got) - t.nIns, t.rerr
 }
+
+// receivedTyped: how many of the received lines are typed ones (not part of an insert).
+func (t *traffic) receivedTyped() (int, error) { return t.received() }
 
 // pump sends tokens and types lines at a steady pace until told to stop.
 func (t *traffic) pump(wantOut, wantIn bool, stop <-chan struct{}, wg *sync.WaitGroup) {
@@ -1559,6 +1603,10 @@ retry:
 	res.count("tokens_sent_after_late_requests", int64(t.sentPost-sentAtLate))
 	res.count("lines_typed_after_late_requests", int64(t.typedPost-typedAtLate))
 	t.mu.Unlock()
+	// the operator's other keys, with the shell attached; more traffic follows them and everything is checked together
+	if len(c.KeysDuring) > 0 && !e.keysDuring(t) {
+		return
+	}
 	if !e.checkTraffic(t, true) {
 		return
 	}
@@ -1816,16 +1864,18 @@ func (e *env) checkTraffic(t *traffic, wantOut bool) bool {
 	// lines at the fake shell
 	dl := time.Now().Add(boundTraffic * e.mult)
 	for {
-		n, rerr := t.received()
+		n, rerr := t.receivedTyped()
 		if n >= typed || rerr != nil || !time.Now().Before(dl) {
 			break
 		}
 		time.Sleep(2 * time.Millisecond)
 	}
 	t.rmu.Lock()
-	got := append([]string(nil), t.got...)
+	gotAll := append([]string(nil), t.got...)
 	rerr := t.rerr
 	t.rmu.Unlock()
+	// what Tab inserted lies between the typed lines (keys.go); without a Tab press got is everything received
+	got, blocks := splitInserts(gotAll, t.inserts)
 	if rerr != nil {
 		res.violate("shell-traffic-disturbed-by-close", "the attached shell's input stream ended (%v) while the harness kept the shell attached; %d of %d typed lines had arrived, %d tokens had been sent", rerr, len(got), typed, sent)
 		return false
@@ -1857,6 +1907,9 @@ func (e *env) checkTraffic(t *traffic, wantOut bool) bool {
 		return false
 	}
 	res.count("lines_in_checked", int64(len(got)))
+	if !e.checkInserts(t.inserts, blocks) {
+		return false
+	}
 	if !wantOut || sent == 0 {
 		return true
 	}
@@ -1977,6 +2030,8 @@ func (e *env) afterGone(goneEnd int, dropConns func()) {
 	}
 	// the pre-opened connections that have been silent so far speak now, before the operator enters anything
 	e.lateAfter()
+	// the operator's other keys, after the shell has gone and before the one line
+	e.keysAfter()
 	if c.Hold && len(e.held) > 0 {
 		e.tl.add("HARNESS clients stay connected: %s", strings.Join(e.held, "; "))
 	}
@@ -2000,6 +2055,8 @@ func (e *env) afterGone(goneEnd int, dropConns func()) {
 				key += ":refused-output-request-still-connected"
 			case e.heldShellOut:
 				key += ":ended-shell-output-request-still-connected"
+			case e.keysPressed > 0:
+				key += ":operator-pressed-keys-after-the-shell-had-gone"
 			}
 			diag := e.whyNoExit(dropConns)
 			res.fire(key, "the only shell was gone (%s) and one line was entered, but the process is still running %s later; %s; terminal ends: %q", c.Ending, boundExit*e.mult, diag, tailStr(e.s.P.Clean(), 200))
@@ -2323,6 +2380,12 @@ func merge(r *mon.Run, res *result, orderCount bool) {
 		r.Count("runs_never_completed_shell", 1)
 		return
 	}
+	if c.Kind == "icanhazip" {
+		return
+	}
+	if c.Engine == "keys" {
+		keysMerge(r, res)
+	}
 	r.Count(pre+"order_"+c.Order, 1)
 	r.Count(pre+"ending_"+c.Ending, 1)
 	r.Count(pre+"junk_"+c.Junk, 1)
@@ -2374,6 +2437,12 @@ func jobCfg(r *mon.Run, j job) (Cfg, *rand.Rand, *rand.Rand) {
 	case "atonce":
 		rng := r.Rng("atonce", j.index)
 		return makeAtOnceCfg(rng, j.index, rot), rng, r.Rng("atonce-late-run", j.index)
+	case "keys":
+		rng := r.Rng("keys", j.index)
+		return makeKeysCfg(rng, j.index, rot), rng, r.Rng("keys-late-run", j.index)
+	case "icanhazip":
+		rng := r.Rng("icanhazip", j.index)
+		return makeIcanhazipCfg(rng, j.index, rot), rng, r.Rng("icanhazip-late-run", j.index)
 	}
 	rng := r.Rng("case", j.index)
 	return makeCfg(rng, r.Rng("late", j.index), j.index, rot), rng, r.Rng("late-run", j.index)
@@ -2383,6 +2452,9 @@ func runJob(r *mon.Run, bin string, j job, alone bool) *result {
 	cfg, rng, lrng := jobCfg(r, j)
 	if cfg.PlainBuild {
 		bin = filepath.Join(filepath.Dir(bin), "curlrevshell-plain")
+	}
+	if cfg.Engine == "icanhazip" {
+		return runIcanhazip(r, bin, cfg, rng)
 	}
 	return runCfg(r, bin, cfg, rng, lrng, alone)
 }
@@ -2402,7 +2474,16 @@ func Run(r *mon.Run) {
 		"(Content-Length: 0 | no body framing | chunked with the terminating chunk in the same write | a declared length sent whole with the header | a real curl -T /dev/null) as the second half after the input side has been attached for 20-300 ms, " +
 		"both halves written back to back in either order, one /io request with such a body, or (output side attached for a while, body unfinished) the end of the body / an input request whose client hangs up at once, sent in the same breath as the other half; " +
 		"an attempt that ends without a ready notice is dropped and tried again (at most 8 times per process; nothing is promised about it); once a ready notice is on the terminal: " +
-		"ECONNREFUSED within the bound, never a success again, no callback help, exit status 0 after at most the one entered line"
+		"ECONNREFUSED within the bound, never a success again, no callback help, exit status 0 after at most the one entered line. " +
+		"KEYS engine (keys.go): the configuration matrix and the operator's other keys — ordinary full cases (i-o / o-i / io, junk, >= 80 tokens/lines across the close, an ending, the one line; same oracle) under the program's other documented options, " +
+		"each alone and in pairs by index: -ctrl-i (not given | file .subr/.sh/.txt | directory | missing; names with a space or a %; generated shell functions with '# TABDOC:' lines of eleven shapes incl. a name without description; " +
+		"a few functions | dozens | more than 1100 lines, i.e. more than the 1024 entries of the program's input queue), -callback-address (0 | 1 | 24), -callback-template (not given | file | symlink | missing), -ipv6-one-liners, -prompt, " +
+		"flag spellings -f v | -f=v | --f v | --f=v, with -serve-files-from / -no-timestamps / -log drawn as elsewhere; the operator presses Tab (= Ctrl+I), Ctrl+J and Ctrl+O " +
+		"while the shell is attached (after a Tab every non-empty line of the generated source must reach the fake shell, in order, between the typed lines around the key; the program must not end; " +
+		"30 more lines and tokens follow and all traffic is compared as always; while muted only lines and unnumbered output pass, numbered tokens go on after the 'Unmuting' notice) " +
+		"and after it has gone, before the one entered line (exit status 0 at that line at the latest, no callback help). " +
+		"Every option, pair, size, spelling and key of the list has its own counter (keys_opt:*, keys_pair:*, ...), counted only for cases judged to the end, and a floor. " +
+		"ICANHAZIP engine: -one-shell -icanhazip is started once (without network the program gives up before it listens: counted, nothing judged)"
 	r.Assumptions = []string{
 		"phase A ends when the harness STARTS the request that completes the shell (the listener may legitimately close before the ready notice reaches the terminal)",
 		"a successful connect after the close counts only if the listener presents this program's certificate (another process may be given the freed port)",
@@ -2432,6 +2513,11 @@ func Run(r *mon.Run) {
 			"(the other engines keep the race-detector build; race reports are judged as before)",
 		"at-once engine, refusal bound: when no refusal is seen 20 s after the ready notice the case is NOT run again (that would roll the program's scheduling dice again); the same process and poller are kept " +
 			"and, once all other cases are done, watched alone for another 40 s (the first two such processes; three in the thorough tier): a violation is a listener that is still open then",
+		"keys engine: what Tab / Ctrl+J / Ctrl+O print on the terminal is not this property; the notices ('Inserted n bytes' / 'Error working out what to insert', 'Muting until', 'Unmuting') are waited for (30 s while the shell is attached, 3 s after it has gone) only to order the harness' next step: " +
+			"the typed line that follows a Tab is typed after the 'Inserted' notice, so the insert (one element of the program's input queue) precedes it in the shell's input stream; a missing notice while attached is inconclusive unless the program has ended (violation program-ends-while-its-one-shell-is-attached); after the shell has gone it is only counted",
+		"keys engine: of an insert only the generated files' own non-empty lines are expected (the converters for .sh/.subr and unknown extensions pass a file on as it is, a directory is its *.sh/*.subr files in name order), as a subsequence of what arrives between the two typed lines; " +
+			"whatever else the program adds there (its tab_list function) is not judged; with no or a missing -ctrl-i source nothing is expected",
+		"keys engine: Ctrl+O is pressed only once every numbered token sent so far is on the terminal (a mute drops output, by design), and numbered tokens are sent again only after the 'Unmuting' notice (2 s of calm); generated content is lower-case letters, digits and punctuation, so nothing a key prints can look like a token or a typed line",
 		"the later engines' pollers always close with RST (the original list draws RST or FIN): a FIN leaves a TIME_WAIT socket per connect and the many short cases would use up the machine's ephemeral ports",
 	}
 	if f := os.Getenv("C12_FORCE"); f != "" {
@@ -2440,17 +2526,25 @@ func Run(r *mon.Run) {
 	n := r.N(10, 150)
 	nUp := r.N(6, 36)
 	nAt := r.N(12, 96)
+	nKeys := r.N(12, 72)
+	nIcan := r.N(1, 4)
 	var jobs []job
 	for i := 0; i < n; i++ {
 		jobs = append(jobs, job{"case", i})
 	}
 	// the short cases of the later engines alternate behind the original list (whose long-staying shell starts first)
-	for k := 0; k < nUp || k < nAt; k++ {
+	for k := 0; k < nUp || k < nAt || k < nKeys; k++ {
+		if k < nKeys {
+			jobs = append(jobs, job{"keys", k})
+		}
 		if k < nAt {
 			jobs = append(jobs, job{"atonce", k})
 		}
 		if k < nUp {
 			jobs = append(jobs, job{"upload", k})
+		}
+		if k < nIcan {
+			jobs = append(jobs, job{"icanhazip", k})
 		}
 	}
 
@@ -2484,7 +2578,7 @@ func Run(r *mon.Run) {
 		return
 	}
 	results := make([]*result, len(jobs))
-	mon.Parallel(len(jobs), 10, func(x int) {
+	mon.Parallel(len(jobs), 14, func(x int) {
 		if !r.Want(jobs[x].engine, jobs[x].index) {
 			return
 		}
@@ -2524,6 +2618,17 @@ func Run(r *mon.Run) {
 			byConstr["atonce"]++
 			if cf.Order == "i-o" && cf.AtTiming == "after-a-while" {
 				byConstr["atonce_det"]++
+			}
+		case "keys":
+			keysByConstr(cf, byConstr)
+		case "", "case":
+			// the cases that leave requests hanging in the middle: every tenth case by construction, except that
+			// an i-o case may make its refused attempts against the real first half instead (no crowd, no hanging requests)
+			if cf.Kind == "full" && cf.Junk == "several" && cf.Hold && cf.JunkWhere == "pre" {
+				byConstr["case_hanging"]++
+				if cf.Files {
+					byConstr["case_hanging_files"]++
+				}
 			}
 		}
 		if os.Getenv("C12_DEBUG") != "" {
@@ -2640,9 +2745,11 @@ func Run(r *mon.Run) {
 		// pre-opened connection can no longer speak afterwards; the attempts are still made)
 		r.Floor("late_after_shell_attempts", full*6/10)
 		// requests left hanging in the middle (one case in ten)
-		r.Floor("junk_requests_in_progress_left_hanging", int64(n/10)*4)
-		r.Floor("junk_downloads_left_hanging", int64(n/10))
-		r.Floor("junk_crowd_connections_answered_and_kept_open", int64(n/10)*300)
+		// (never more than the list holds: of the every-tenth cases those in order i-o may draw the other junk place)
+		hanging := min(int64(n/10), max(1, byConstr["case_hanging"]))
+		r.Floor("junk_requests_in_progress_left_hanging", hanging*4)
+		r.Floor("junk_downloads_left_hanging", min(int64(n/10), max(1, byConstr["case_hanging_files"])))
+		r.Floor("junk_crowd_connections_answered_and_kept_open", hanging*300)
 		r.Floor("exits_after_an_unhurried_line", int64(n/20))
 	}
 	if r.Replaying() {
@@ -2660,6 +2767,9 @@ func Run(r *mon.Run) {
 		r.Floor("upload_lines_in_checked", int64(nUp)*2/3*80)
 		r.Floor("upload_exits_observed", int64(nUp)*2/3)
 		r.Floor("upload_refused_after_close", int64(nUp)*8)
+	}
+	if os.Getenv("C12_ENGINE") == "" || os.Getenv("C12_ENGINE") == "keys" {
+		keysFloors(r, nKeys, nIcan, byConstr)
 	}
 	if os.Getenv("C12_ENGINE") == "" || os.Getenv("C12_ENGINE") == "atonce" {
 		// the at-once engine: shells that are over the moment they are complete
